@@ -278,13 +278,20 @@ def run(ctx):
     ctx.floor("C13.5", "$ORIGIN line", len(origin_writes), 1, exact=True)
     for b in origin_writes:
         g1, _ = zsc.guarded(b, lambda fc: fc[0] == "is" and fc[1] == "Some" and A.peel(fc[2])[0] == "call" and A.peel(fc[2])[1] == Z + "Zone::get_soa")
-        names_ = {n: l for l, n in zs.names.items()}
-        so_l = names_.get("show_origin")
-        g2, _ = zsc.guarded(b, lambda fc: fc[0] == "ltruth" and fc[1] == so_l and fc[2] is True)
-        okd = False
-        if so_l is not None:
-            d = A.peel(zsr.local(so_l, (b, "term")))
-            okd = d[0] == "un" and d[1] == "Not" and bool(Call("DomainName::is_root", Call("Zone::get_apex", Param(1)))(d[2]))
+        # the condition `!apex.is_root()`, tested directly or through a bool variable (whatever its name)
+        def not_root(x):
+            d = A.peel(x)
+            return d[0] == "un" and d[1] == "Not" and bool(Call("DomainName::is_root", Call("Zone::get_apex", Param(1)))(d[2]))
+        def apex_not_root(fc):
+            if fc[0] == "ltruth" and fc[2] is True:
+                return not_root(zsr.local(fc[1], (b, "term")))
+            if fc[0] == "truth" and fc[2] is True:
+                return not_root(fc[1])
+            if fc[0] == "call" and fc[1].endswith("DomainName::is_root") and fc[3] is False:
+                return bool(Call("Zone::get_apex", Param(1))(fc[2][0]))
+            return False
+        g2, _ = zsc.guarded(b, apex_not_root)
+        okd = g2
         ctx.check(g1 and g2 and okd, "C13.5", "header:$ORIGIN-condition", "$ORIGIN printed iff the zone has a SOA and the apex is not the root", "$ORIGIN condition changed", zs.loc(b))
     # serialise_domain: absolute form iff apex.is_root() || !is_authoritative() || !is_subdomain_of(apex); "@" iff name == apex; else relative labels
     rets = A.return_exprs(sd, sdr)
